@@ -92,6 +92,12 @@ def indexByteI (s : Bytes) (c : UInt8) : Int :=
   | some i => (i : Int)
   | none => -1
 
+/-- `strings.LastIndexByte(s, c)`: the position of the last `c`, or -1 -/
+def lastIndexByteI (s : Bytes) (c : UInt8) : Int :=
+  match Bytes.lastIndexOf c s with
+  | some i => (i : Int)
+  | none => -1
+
 /-- `bytes.Index(s, sep)`: the position of the first occurrence of `sep`, or -1 -/
 def indexSub (sep : Bytes) : Bytes → Option Nat
   | [] => if sep.isEmpty then some 0 else none
